@@ -34,7 +34,57 @@ const BLOCKS: &[&str] = &[
     "\u{3000}", "\u{200b}", "\u{2028}", "\u{feff}",
 ];
 
+/// long texts: plain ASCII filler with a few special pieces placed so that they straddle (or touch) byte offsets that are
+/// multiples of a power of two (block-wise scanning, SIMD chunks, buffer growth steps)
+fn gen_long_string(rng: &mut Rng) -> String {
+    let block = *rng.pick(&[8usize, 16, 32, 64, 256, 1024, 4096]);
+    let blocks = rng.range(1, if block >= 1024 { 3 } else { 6 });
+    let len = block * blocks + rng.below(4);
+    let mut bytes: Vec<u8> = (0..len).map(|i| b"abcxyz 01"[i % 9]).collect();
+    let mut extra_non_ascii: Option<(usize, char)> = None;
+    for _ in 0..rng.range(1, 3) {
+        let k = rng.range(1, blocks);
+        let boundary = block * k;
+        match rng.below(6) {
+            // CR is the last byte of one block, LF the first byte of the next
+            0 | 1 | 2 if boundary < len => {
+                bytes[boundary - 1] = b'\r';
+                bytes[boundary] = b'\n';
+            }
+            // wholly before / after the boundary
+            3 if boundary + 1 < len => {
+                bytes[boundary] = b'\r';
+                bytes[boundary + 1] = b'\n';
+            }
+            4 if boundary >= 2 => {
+                bytes[boundary - 2] = b'\r';
+                bytes[boundary - 1] = b'\n';
+            }
+            _ => {
+                if extra_non_ascii.is_none() && boundary < len {
+                    extra_non_ascii = Some((boundary - 1, *rng.pick(&['\u{e9}', '\u{4e2d}', '\u{301}', '\u{1f600}'])));
+                }
+            }
+        }
+    }
+    // lone CR / LF elsewhere must not be paired up
+    if rng.coin() {
+        let p = rng.below(len);
+        if bytes[p] != b'\r' && bytes[p] != b'\n' && (p == 0 || bytes[p - 1] != b'\r') && (p + 1 >= len || bytes[p + 1] != b'\n') {
+            bytes[p] = if rng.coin() { b'\r' } else { b'\n' };
+        }
+    }
+    let mut s = String::from_utf8(bytes).unwrap();
+    if let Some((p, c)) = extra_non_ascii {
+        s.insert(p, c);
+    }
+    s
+}
+
 fn gen_string(rng: &mut Rng) -> String {
+    if rng.chance(1, 48) {
+        return gen_long_string(rng);
+    }
     let mut s = String::new();
     let ascii_only = rng.chance(1, 4);
     let n = rng.range(0, 10);
@@ -213,7 +263,24 @@ pub fn run(opts: &Opts, rep: &mut Report) {
         }
         let n = exp.len();
         let mut bad_slice = None;
-        'outer: for a in 0..=n {
+        if n > 48 {
+            rep.count("c17.long-texts");
+            // long texts: sampled ranges instead of all O(n^2)
+            for _ in 0..200 {
+                let a = rng.below(n + 1);
+                let b = a + rng.below(n - a + 1);
+                rep.count("c17.ranges-checked");
+                let e = &exp[a..b];
+                if content(owned.slice(a..b)) != e || content(view.slice_u32(a as u32..b as u32)) != e || content(view.slice(a..)) != exp[a..] || content(owned.slice(..b)) != exp[..b] {
+                    bad_slice = Some(format!("{a}..{b}"));
+                    break;
+                }
+            }
+        }
+        'outer: for a in 0..=n.min(if n > 48 { 0 } else { n }) {
+            if n > 48 {
+                break;
+            }
             for b in a..=n {
                 rep.count("c17.ranges-checked");
                 let e = &exp[a..b];
